@@ -16,6 +16,8 @@ func (pass *ReplaceReference) Process(schemas []*ast.Schema) ([]*ast.Schema, err
 	visitor := Visitor{
 		OnRef:         pass.processRef,
 		OnConstantRef: pass.processConstantRef,
+		OnDisjunction: pass.processDisjunction,
+		OnStruct:      pass.processStruct,
 	}
 
 	return visitor.VisitSchemas(schemas)
@@ -46,6 +48,64 @@ func (pass *ReplaceReference) processConstantRef(_ *Visitor, _ *ast.Schema, def 
 	def.ConstantReference.ReferredPkg = pass.To.Package
 	def.ConstantReference.ReferredType = pass.To.Object
 	def.AddToPassesTrail(fmt.Sprintf("ReplaceReference[%s.%s → %s]", constantRef.ReferredPkg, constantRef.ReferredType, pass.To))
+
+	return def, nil
+}
+
+// discriminator mappings designate the branches of a disjunction by name: they are usages of the reference too
+func (pass *ReplaceReference) processDisjunction(visitor *Visitor, schema *ast.Schema, def ast.Type) (ast.Type, error) {
+	if err := pass.replaceInDisjunction(visitor, schema, def.Disjunction); err != nil {
+		return ast.Type{}, err
+	}
+
+	return def, nil
+}
+
+func (pass *ReplaceReference) replaceInDisjunction(visitor *Visitor, schema *ast.Schema, disjunction *ast.DisjunctionType) error {
+	// the package of an entry is the package of the branch it designates.
+	for discriminator, typeName := range disjunction.DiscriminatorMapping {
+		designated := ast.RefType{ReferredPkg: schema.Package, ReferredType: typeName}
+		for _, branch := range disjunction.Branches {
+			if branch.IsRef() && branch.Ref.ReferredType == typeName {
+				designated = branch.AsRef()
+				break
+			}
+		}
+
+		if pass.From.MatchesRef(designated) {
+			disjunction.DiscriminatorMapping[discriminator] = pass.To.Object
+		}
+	}
+
+	var err error
+	for i, branch := range disjunction.Branches {
+		disjunction.Branches[i], err = visitor.VisitType(schema, branch)
+		if err != nil {
+			return err
+		}
+	}
+
+	return nil
+}
+
+// processStruct also replaces the reference in what a struct generated from a
+// disjunction keeps of it in its hints.
+func (pass *ReplaceReference) processStruct(visitor *Visitor, schema *ast.Schema, def ast.Type) (ast.Type, error) {
+	// hints can be set by users: the value isn't necessarily a disjunction.
+	// It goes first: its mapping designates the branches by their current name.
+	if disjunction, ok := def.Hints[ast.HintDiscriminatedDisjunctionOfRefs].(ast.DisjunctionType); ok {
+		if err := pass.replaceInDisjunction(visitor, schema, &disjunction); err != nil {
+			return ast.Type{}, err
+		}
+	}
+
+	var err error
+	for i, field := range def.Struct.Fields {
+		def.Struct.Fields[i], err = visitor.VisitStructField(schema, field)
+		if err != nil {
+			return ast.Type{}, err
+		}
+	}
 
 	return def, nil
 }
